@@ -6,7 +6,7 @@ import XlVerif.Lemmas.C11Names
 import XlVerif.Lemmas.C11Text
 namespace XlVerif.Lemmas.C11
 open XlVerif XlVerif.Model.C11
-open XlVerif.Spec.C11 (Text Coord SCell Sheet Workbook colName digits coordText)
+open XlVerif.Spec.C11 (Text Coord SCell Sheet Workbook Target colName digits coordText)
 
 theorem coordText_injective {c1 c2 : Coord} (h : coordText c1 = coordText c2) : c1 = c2 := by
   have h1 := boundary_bare c1
@@ -90,5 +90,51 @@ theorem nodup_keys (wb : Workbook) (ig : List Text) (hs : (wb.sheets.map (·.nam
         rw [this]
         exact List.mem_map_of_mem (f := (·.name)) (List.mem_filter.mp hsh').1
     · exact ih'
+
+
+/-! ### the guard of `names_bound_spec_partial` -/
+
+/-- Targets inside the domain of `names_bound_spec_partial`: the sheet name is non-empty, has none of
+    `$ ! :`, no blank at either end, does not begin with an apostrophe, and the corners are real
+    coordinates.  (Apostrophes *inside* the name are fine since the repair of D1101.) -/
+def GoodTarget (t : Target) : Prop :=
+  t.sheet ≠ [] ∧ '$' ∉ t.sheet ∧ '!' ∉ t.sheet ∧ ':' ∉ t.sheet ∧ t.sheet.head? ≠ some '\'' ∧
+  strip t.sheet = t.sheet ∧
+  1 ≤ t.c1.col ∧ 1 ≤ t.c1.row ∧ (∀ p, t.snd = some p → 1 ≤ p.2.1.col ∧ 1 ≤ p.2.1.row)
+
+instance (t : Target) : Decidable (GoodTarget t) := by
+  unfold GoodTarget
+  have : Decidable (∀ p, t.snd = some p → 1 ≤ p.2.1.col ∧ 1 ≤ p.2.1.row) := by
+    cases h : t.snd with
+    | none => exact isTrue (by intro p hp; cases hp)
+    | some q =>
+      by_cases hq : 1 ≤ q.2.1.col ∧ 1 ≤ q.2.1.row
+      · exact isTrue (by intro p hp; injection hp with hp; rw [← hp]; exact hq)
+      · exact isFalse (fun hall => hq (hall q rfl))
+  infer_instance
+
+/-- The address `build_defined_names` computes is the statement's address of the target. -/
+theorem normAddress_good (t : Target) (hg : GoodTarget t) :
+    normAddress (Model.C11.Target.text t) = Spec.C11.Target.address t := by
+  obtain ⟨hne, hd, hb, _, ha, hst, _⟩ := hg
+  rw [normAddress_target t hne hd hb (fun _ => ⟨ha, hst⟩)]
+  unfold restText Spec.C11.Target.address Spec.C11.addr
+  rcases t.snd with _ | ⟨a, c2, b⟩
+  · simp [bare_eq_coordText]
+  · simp [bare_eq_coordText, List.append_assoc]
+
+theorem targetText_ne_ref (t : Target) (hd : '$' ∉ t.sheet) : Model.C11.Target.text t ≠ "#REF!".toList := by
+  intro e
+  have h1 := filter_target t hd
+  rw [e] at h1
+  have h2 : rsplit1 '!' (sheetPart t ++ '!' :: restText t) = (sheetPart t, restText t) :=
+    rsplit1_of _ _ _ (restText_no_bang t)
+  rw [← h1] at h2
+  have h3 : rsplit1 '!' (("#REF!".toList).filter (· ≠ '$')) = ("#REF".toList, []) := by decide
+  rw [h3] at h2
+  have h4 : restText t = [] := (Prod.mk.inj h2).2.symm
+  unfold restText bare at h4
+  have h5 := (List.append_eq_nil_iff.mp h4).1
+  exact digits_ne_nil t.c1.row (List.append_eq_nil_iff.mp h5).2
 
 end XlVerif.Lemmas.C11
